@@ -24,6 +24,8 @@ from __future__ import annotations
 def _victim(sim, v: dict):
     if v['kind'] == 'manager':
         return sim.nodes.get(f"m{v['index']}")
+    if v['kind'] == 'client':
+        return sim.nodes.get(f"c{v['index']}")
     ws = [n for n in sim.nodes.values() if n.kind == 'worker']
     if not ws:
         return None
@@ -73,6 +75,27 @@ def install(sim, rr, plan: list) -> None:
                                'why': 'victim gone'})
             return
         main_why = node.main.why if node.main is not None else ''
+        if p['spec']['kind'] == 'sever':
+            # the victim's upstream connection breaks while both ends stay
+            # alive: in-flight data is lost, both ends see a reset
+            from dst import seams
+            up = [e for e in node.endpoints
+                  if e.peer is not None and e.label.endswith('>' + node.name)
+                  and not e.sock_closed and not e.peer.sock_closed]
+            up = up[:1]
+            for e in up:
+                for x in (e, e.peer):
+                    x.inflight.clear()
+                    x.inflight.append(seams.RST)
+                    x.rst_scheduled = True
+            sim.log('SEVER', node.name)
+            sim.count('fault.sever.' + node.kind)
+            rr.crashes.append({'spec': p['spec'], 'fired': bool(up),
+                               'victim': node.name, 'kind': node.kind,
+                               'step': sim.steps, 'seq': sim.seq,
+                               'now': sim.now, 'main_was': main_why,
+                               'lost': 0, 'sever': True})
+            return
         lost = 0
         if p['spec'].get('lose_tail'):
             for e in node.endpoints:
@@ -95,6 +118,7 @@ def install(sim, rr, plan: list) -> None:
         rr.crashes.append({'spec': p['spec'], 'fired': True,
                            'victim': node.name, 'kind': node.kind,
                            'step': sim.steps, 'seq': sim.seq,
+                           'now': sim.now,
                            'main_was': main_why, 'lost': lost})
         sim.kill(node, -9, how='crash')
 
